@@ -87,7 +87,7 @@ _COMMON_UNVERIFIED = [
 UNVERIFIED = {"C09": [
     "guard slices (session files json_session.rs, commands.rs): the explicit panic sites that exist today (listed with reasons in units/guards/allowed_panic.json: `stack.0.last().unwrap()`, channel sends, the Content-Length framing of the input stream, serialisation) are assumed dead and are not obligations; any other panic site in these files is",
 ] + _COMMON_UNVERIFIED, "C02": [
-    "guard slices (evaluator files): the explicit panic sites that exist today (74, listed with reasons in units/guards/allowed_panic.json: value-stack pops, dispatch arms, mutex locks) are assumed dead and are not obligations; any other panic site in these files is; eval_built_in_call / eval_built_in_method_call are sliced per arm in unit indices instead",
+    "guard slices (evaluator files): the explicit panic sites that exist today (73, listed with reasons in units/guards/allowed_panic.json: value-stack pops, dispatch arms, mutex locks) are assumed dead and are not obligations; any other panic site in these files is; eval_built_in_call / eval_built_in_method_call are sliced per arm in unit indices instead",
 ] + _COMMON_UNVERIFIED, "C28": [
     "guard slices (language-server files): the explicit panic sites that exist today in lsp.rs (reftest_lsp's two `to_string_pretty(..).unwrap()`), go_to_def.rs and caret_finder.rs (test-harness helpers; listed with reasons in units/guards/allowed_panic.json) are assumed dead; any other panic site in lsp.rs, completions.rs, signature_help.rs, hover.rs, go_to_def.rs, pos_to_id.rs, highlight.rs, rename.rs, caret_finder.rs is an obligation",
 ] + _COMMON_UNVERIFIED, "C01": [
@@ -117,6 +117,8 @@ def _hint_matrix():
     progs += ["enum E { A, B(Int), C }\nfun f(e: E) { match e { A => 1 } }\n", "enum E { A }\nfun f(e: E) { match e { } }\n",
               "enum E {}\nfun f(e: E) { match e { } }\n", "struct S { x: Int }\nS{ x: 1, x: 2, y: 3 }\nS{}\n",
               "fun f<T, U, V>() {}\nfun g<T>(x: T) {}\nfun h<>() {}\n", "fun same(): Int { if True { return 1 } return 1 }\nfun one(): Int { return 1 }\n",
+              "else{}", "in{}\n", "else{ x: 1 }", "fun f() {\n  let\nelse{}\n}\n", "catch{}",
+              "import \"./nope_zz.gdn\"\nimport \"./nope_zz.gdn\"\n", "import \"./nope_zz.gdn\" as a\nimport \"./nope_zz.gdn\" as b\na::f()\n",
               "", "\n", "//", "///", "/// x\n", "fun", "fun f(", "let x: = 1", "let (a, ) = ()", "x.", "x.1", "1.", "1.5.5", "\"", "\"\\", "match", "match x {", "test", "import", "import \"", "public", "method f(", "struct", "enum E { A(", "@", "é", "\U0001F600", "let é = 1", "a::", "::a", "a::b::c", "f(,)", "[,]", "Dict[", "Dict[=>]", "x =", "x +=", "-", "--1", "1 +", "(", ")", "{", "}", "]"]
     return progs
 
